@@ -560,6 +560,9 @@ def run(ctx, rep):
     const_declaration_over_existing_name(F, rep)
     existence_is_asked_function_wide(F, rep)
     modify_target_is_not_const(F, rep)
+    # `constant = 5` declares a variable named constant, not a const named ant
+    from props import _keywords
+    rep.floor("C10.keyword-boundary flag keywords judged", _keywords.run(F, rep, "C10.keyword-boundary", only={"assignment_flag", "class_flag", "type_export"}), 3)
     scope_walk(F, rep)
     const_flag(F, rep)
     member_names_are_not_variables(F, rep)
